@@ -436,6 +436,11 @@ def long_names():
                 if p + 1 < n:
                     yield "a" * p + c + "." + "a" * (n - p - 2)
                     yield "a" * p + "." + c + "b" * (n - p - 2)
+    # one blank-like character around an otherwise clean name
+    for w in ["\n", "\r", "\t", "\x0b", "\x0c", "\x85", " ", "\xa0", "\u2028", "\x1c", "\x00", "\r\n"]:
+        for name in ["a", "a.txt", "ab_c", "A-1.tar.gz"]:
+            for x in (w + name, name + w, name + w + w, w + name + w, name + w + "b", name + "." + w, w + "." + name):
+                yield x
     for atom in RAMP_ATOMS:
         for k in RAMP_COUNTS:
             yield atom * k
